@@ -96,13 +96,13 @@ Proof.
   - destruct (Nat.eqb i id); simpl; auto.
 Qed.
 
-Lemma events_upto_cons k e v l fin : events_upto (S k) ((e, v) :: l, fin) = e ++ events_upto k (l, fin).
+Lemma events_upto_cons k s l fin : events_upto (S k) (s :: l, fin) = fst s ++ events_upto k (l, fin).
 Proof. reflexivity. Qed.
 Lemma events_upto_0 s : events_upto 0 s = [].
 Proof. reflexivity. Qed.
 Lemma events_upto_nil k fin : events_upto k ([], fin) = [].
 Proof. unfold events_upto. simpl. now rewrite firstn_nil. Qed.
-Lemma all_events_cons e v l fin : all_events ((e, v) :: l, fin) = e ++ all_events (l, fin).
+Lemma all_events_cons s l fin : all_events (s :: l, fin) = fst s ++ all_events (l, fin).
 Proof. unfold all_events. simpl. now rewrite app_assoc. Qed.
 Lemma all_events_nil fin : all_events ([], fin) = fin.
 Proof. reflexivity. Qed.
@@ -589,8 +589,8 @@ Lemma map_upto_apps id f l k fin : Forall (segP (no_id id)) l ->
 Proof.
   intros H. revert k. induction H as [|[e v] r He Hr IH]; intros k.
   - simpl. now rewrite events_upto_nil, firstn_nil.
-  - destruct k; auto. cbn [map map_seg fst snd]. rewrite events_upto_cons, !apps_of_app, apps_of_own, IH.
-    rewrite (no_id_apps id e He). reflexivity.
+  - destruct k; auto. cbn [map]. rewrite events_upto_cons. unfold map_seg at 1. cbn [fst snd].
+    rewrite !apps_of_app, apps_of_own, IH. rewrite (no_id_apps id e He). reflexivity.
 Qed.
 
 Lemma map_all_apps id f l fin : Forall (segP (no_id id)) l -> Forall (no_id id) fin ->
@@ -598,8 +598,8 @@ Lemma map_all_apps id f l fin : Forall (segP (no_id id)) l -> Forall (no_id id) 
 Proof.
   intros H Hf. induction H as [|[e v] r He Hr IH].
   - simpl. rewrite all_events_nil. now apply no_id_apps.
-  - cbn [map map_seg fst snd]. rewrite all_events_cons, !apps_of_app, apps_of_own, IH.
-    rewrite (no_id_apps id e He). reflexivity.
+  - cbn [map]. rewrite all_events_cons. unfold map_seg at 1. cbn [fst snd].
+    rewrite !apps_of_app, apps_of_own, IH. rewrite (no_id_apps id e He). reflexivity.
 Qed.
 
 (* consuming k results applies the mapped function to exactly the first k input examples, in order, once each *)
@@ -622,15 +622,15 @@ Lemma map_upto_drop id f l k fin :
   drop id (events_upto k (map (map_seg id f) l, fin)) = drop id (events_upto k (l, fin)).
 Proof.
   revert k. induction l as [|[e v] r IH]; intros k; auto.
-  destruct k; auto. cbn [map map_seg fst snd]. rewrite !events_upto_cons, !drop_app, drop_app_fetch, IH.
-  now rewrite app_nil_r.
+  destruct k; auto. cbn [map]. rewrite !events_upto_cons. unfold map_seg at 1. cbn [fst snd].
+  rewrite !drop_app, drop_app_fetch, IH. now rewrite app_nil_r.
 Qed.
 Lemma map_all_drop id f l fin :
   drop id (all_events (map (map_seg id f) l, fin)) = drop id (all_events (l, fin)).
 Proof.
   induction l as [|[e v] r IH]; auto.
-  cbn [map map_seg fst snd]. rewrite !all_events_cons, !drop_app, drop_app_fetch, IH.
-  now rewrite app_nil_r.
+  cbn [map]. rewrite !all_events_cons. unfold map_seg at 1. cbn [fst snd].
+  rewrite !drop_app, drop_app_fetch, IH. now rewrite app_nil_r.
 Qed.
 
 (* a map pulls exactly k elements from its input to deliver k results; what happens below is unchanged, event by event *)
@@ -673,3 +673,732 @@ Proof.
   intros H id. apply nofail_fails, stream_all_upto, iter_s_P; auto.
   intros i _. simpl. auto.
 Qed.
+
+(* ------------------------------------------------------------------------------------------------ *)
+(* B3: filter *)
+
+Lemma all_events_snd_app l f g : all_events (l, f ++ g) = all_events (l, f) ++ g.
+Proof. unfold all_events. simpl. now rewrite app_assoc. Qed.
+
+Lemma iter_s_filter id p d :
+  iter_s (LFilter id p d) =
+  (fst (filter_segs id p [] (fst (iter_s d))), snd (filter_segs id p [] (fst (iter_s d))) ++ snd (iter_s d)).
+Proof. simpl. destruct (iter_s d) as [l fin]. simpl. destruct (filter_segs id p [] l). reflexivity. Qed.
+
+Lemma upto_kth_pass_0 p l : upto_kth_pass p 0 l = [].
+Proof. destruct l; reflexivity. Qed.
+
+Lemma upto_kth_pass_all p k l : length (filter p l) < k -> upto_kth_pass p k l = l.
+Proof.
+  revert k. induction l as [|x r IH]; intros k H; simpl in *; auto.
+  destruct k as [|k]; [lia|]. f_equal. destruct (p x); simpl in H; apply IH; lia.
+Qed.
+
+Lemma filter_upto_apps id p pend l k : Forall (segP (no_id id)) l -> 1 <= k <= length (filter p (map snd l)) ->
+  apps_of id (events_upto k (filter_segs id p pend l)) = apps_of id pend ++ upto_kth_pass p k (map snd l).
+Proof.
+  intros H. revert k pend. induction H as [|[e v] r He Hr IH]; intros k pend Hk; simpl in Hk |- *.
+  - lia.
+  - destruct k as [|k]; [lia|]. destruct (p v) eqn:Pv.
+    + specialize (IH k []). destruct (filter_segs id p [] r) as [o f].
+      rewrite events_upto_cons. cbn [fst]. rewrite !apps_of_app, apps_of_own, (no_id_apps id e He).
+      simpl in Hk. destruct k as [|k].
+      * rewrite events_upto_0, upto_kth_pass_0. simpl. now rewrite app_nil_r.
+      * rewrite IH by lia. simpl. now rewrite <- app_assoc.
+    + rewrite IH by lia. rewrite !apps_of_app, apps_of_own1, (no_id_apps id e He). simpl.
+      now rewrite <- app_assoc.
+Qed.
+
+Lemma filter_all_apps id p pend l : Forall (segP (no_id id)) l ->
+  apps_of id (all_events (filter_segs id p pend l)) = apps_of id pend ++ map snd l.
+Proof.
+  intros H. revert pend. induction H as [|[e v] r He Hr IH]; intros pend; simpl.
+  - rewrite all_events_nil. now rewrite app_nil_r.
+  - destruct (p v).
+    + specialize (IH []). destruct (filter_segs id p [] r) as [o f].
+      rewrite all_events_cons. cbn [fst]. rewrite !apps_of_app, apps_of_own, (no_id_apps id e He), IH.
+      simpl. now rewrite <- app_assoc.
+    + rewrite IH. rewrite !apps_of_app, apps_of_own1, (no_id_apps id e He). simpl. now rewrite <- app_assoc.
+Qed.
+
+Lemma filter_all_drop id p pend l :
+  drop id (all_events (filter_segs id p pend l)) = drop id pend ++ drop id (all_events (l, [])).
+Proof.
+  revert pend. induction l as [|[e v] r IH]; intros pend; simpl.
+  - rewrite !all_events_nil. simpl. now rewrite app_nil_r.
+  - rewrite (all_events_cons (e, v)). cbn [fst]. destruct (p v).
+    + specialize (IH []). destruct (filter_segs id p [] r) as [o f].
+      rewrite all_events_cons. cbn [fst]. rewrite !drop_app, drop_app_fetch, IH, drop_nil, app_nil_r.
+      simpl. now rewrite app_assoc.
+    + rewrite IH. rewrite !drop_app, drop_app1, app_nil_r. now rewrite app_assoc.
+Qed.
+
+(* the events below a filter while it delivers its first k results are exactly the events of pulling the shortest
+   input prefix that contains k passing examples *)
+Lemma filter_upto_drop id p pend l k fin : 1 <= k <= length (filter p (map snd l)) ->
+  drop id (events_upto k (filter_segs id p pend l)) =
+  drop id pend ++ drop id (events_upto (length (upto_kth_pass p k (map snd l))) (l, fin)).
+Proof.
+  revert k pend. induction l as [|[e v] r IH]; intros k pend Hk; simpl in Hk |- *.
+  - lia.
+  - destruct k as [|k]; [lia|]. cbn [length]. rewrite (events_upto_cons _ (e, v)). cbn [fst].
+    destruct (p v) eqn:Pv.
+    + specialize (IH k []). destruct (filter_segs id p [] r) as [o f].
+      rewrite events_upto_cons. cbn [fst]. rewrite !drop_app, drop_app_fetch, app_nil_r.
+      simpl in Hk. destruct k as [|k].
+      * rewrite upto_kth_pass_0. cbn [length]. rewrite !events_upto_0, drop_nil, !app_nil_r. reflexivity.
+      * rewrite IH by lia. simpl. now rewrite app_assoc.
+    + rewrite IH by lia. rewrite !drop_app, drop_app1, app_nil_r. now rewrite app_assoc.
+Qed.
+
+(* asking a filter for k results applies the predicate to exactly the shortest input prefix containing k passing
+   examples, in order, once each; when fewer than k pass, the (k-th) next() call ends the iteration and the predicate
+   has been applied to every input example *)
+Theorem filter_demand_values id p d k : ~ In id (ids_of d) ->
+  apps_of id (if k <=? length (fst (iter_s (LFilter id p d)))
+              then events_upto k (iter_s (LFilter id p d)) else all_events (iter_s (LFilter id p d))) =
+  upto_kth_pass p k (values (iter_s d)).
+Proof.
+  intros H. rewrite iter_s_filter. destruct (iter_s_no_id id d H) as [H1 H2].
+  unfold values. destruct (iter_s d) as [l fin]. cbn [fst snd] in *.
+  pose proof (filter_segs_values id p [] l) as V.
+  assert (L : length (fst (filter_segs id p [] l)) = length (filter p (map snd l)))
+    by (now rewrite <- V, map_length).
+  destruct (Nat.leb_spec k (length (fst (filter_segs id p [] l)))).
+  - destruct k as [|k]; [now rewrite events_upto_0, upto_kth_pass_0|].
+    pose proof (filter_upto_apps id p [] l (S k) H1) as Q.
+    destruct (filter_segs id p [] l) as [o f]. cbn [fst snd] in *.
+    unfold events_upto in *. cbn [fst] in *. rewrite Q by lia. reflexivity.
+  - rewrite upto_kth_pass_all by lia.
+    pose proof (filter_all_apps id p [] l H1) as Q.
+    destruct (filter_segs id p [] l) as [o f]. cbn [fst snd] in *.
+    rewrite all_events_snd_app, apps_of_app, Q, (no_id_apps id fin H2). now rewrite app_nil_r.
+Qed.
+
+Theorem filter_demand id p d k : ~ In id (ids_of d) -> lwf d ->
+  apps_of id (if k <=? length (fst (iter_s (LFilter id p d)))
+              then events_upto k (iter_s (LFilter id p d)) else all_events (iter_s (LFilter id p d))) =
+  upto_kth_pass p k (lref d).
+Proof. intros H W. rewrite filter_demand_values by assumption. now rewrite values_ref. Qed.
+
+(* the statement as originally phrased holds when k results exist *)
+Theorem filter_demand_le id p d k : ~ In id (ids_of d) -> lwf d -> k <= length (lref (LFilter id p d)) ->
+  apps_of id (events_upto k (iter_s (LFilter id p d))) = upto_kth_pass p k (lref d).
+Proof.
+  intros H W K. rewrite <- (filter_demand id p d k H W).
+  rewrite (length_iter (LFilter id p d) W). destruct (Nat.leb_spec k (length (lref (LFilter id p d)))); auto. lia.
+Qed.
+
+(* the predicate is applied to every input example exactly once, in order, rejected tail included *)
+Theorem filter_all id p d : ~ In id (ids_of d) -> lwf d ->
+  apps_of id (all_events (iter_s (LFilter id p d))) = lref d.
+Proof.
+  intros H W. rewrite iter_s_filter, <- (values_ref d W). destruct (iter_s_no_id id d H) as [H1 H2].
+  unfold values. destruct (iter_s d) as [l fin]. cbn [fst snd] in *.
+  pose proof (filter_all_apps id p [] l H1) as Q.
+  destruct (filter_segs id p [] l) as [o f]. cbn [fst snd] in *.
+  rewrite all_events_snd_app, apps_of_app, Q, (no_id_apps id fin H2). now rewrite app_nil_r.
+Qed.
+
+(* a full iteration of a filter is a full iteration of its input, event by event *)
+Theorem filter_upstream_events_all id p d :
+  drop id (all_events (iter_s (LFilter id p d))) = drop id (all_events (iter_s d)).
+Proof.
+  rewrite iter_s_filter. destruct (iter_s d) as [l fin]. cbn [fst snd].
+  pose proof (filter_all_drop id p [] l) as Q.
+  destruct (filter_segs id p [] l) as [o f]. cbn [fst snd] in *.
+  rewrite all_events_snd_app, drop_app, Q, drop_nil. simpl.
+  rewrite <- drop_app. f_equal. unfold all_events. simpl. now rewrite app_nil_r.
+Qed.
+
+(* to deliver k existing results a filter pulls exactly the shortest input prefix containing k passing examples *)
+Theorem filter_upstream_events id p d k : lwf d -> k <= length (lref (LFilter id p d)) ->
+  drop id (events_upto k (iter_s (LFilter id p d))) =
+  drop id (events_upto (length (upto_kth_pass p k (lref d))) (iter_s d)).
+Proof.
+  intros W K. rewrite <- (values_ref d W). simpl in K. rewrite <- (values_ref d W) in K.
+  rewrite iter_s_filter. unfold values in *. destruct (iter_s d) as [l fin]. cbn [fst snd] in *.
+  destruct k as [|k]; [now rewrite upto_kth_pass_0, !events_upto_0|].
+  pose proof (filter_upto_drop id p [] l (S k) fin) as Q.
+  destruct (filter_segs id p [] l) as [o f]. cbn [fst snd] in *.
+  unfold events_upto in *. cbn [fst] in *. rewrite Q by lia. reflexivity.
+Qed.
+
+(* ------------------------------------------------------------------------------------------------ *)
+(* B6: random access touches only what makes up that one result *)
+
+Theorem get_map_support id f d i e v : ~ In id (ids_of d) -> get_s (LMap id f d) i = Some (e, v) ->
+  exists e' v', get_s d i = Some (e', v') /\ apps_of id e = [v'] /\ v = f v' /\
+                forall id', id' <> id -> apps_of id' e = apps_of id' e'.
+Proof.
+  intros H E. simpl in E. destruct (get_s d i) as [[e' v']|] eqn:E'; inversion E; subst.
+  exists e', v'. repeat split; auto.
+  - rewrite apps_of_app, apps_of_own, (no_id_apps id e'); auto. eapply get_s_no_id; eauto.
+  - intros id' Hn. rewrite apps_of_app. simpl. destruct (Nat.eqb_spec id id'); [congruence|].
+    now rewrite app_nil_r.
+Qed.
+(* ... in fact the events are those of fetching input element i, then one application, then the hand-over *)
+Theorem get_map_events id f d i :
+  get_s (LMap id f d) i =
+  match get_s d i with Some (e', v') => Some (e' ++ [App id v'; Fetch id], f v') | None => None end.
+Proof. reflexivity. Qed.
+
+(* a slice fetches exactly the selected input element, plus its own hand-over *)
+Theorem get_slice_support id idx d i :
+  get_s (LSlice id idx d) i =
+  match nth_error idx i with
+  | Some j => match get_s d j with Some (e, v) => Some (e ++ [Fetch id], v) | None => None end
+  | None => None
+  end.
+Proof. reflexivity. Qed.
+Theorem get_slice_support_nth id idx d i : i < length idx ->
+  get_s (LSlice id idx d) i =
+  match get_s d (nth i idx 0) with Some (e, v) => Some (e ++ [Fetch id], v) | None => None end.
+Proof.
+  intros H. simpl. destruct (nth_error idx i) as [j|] eqn:E.
+  - now rewrite (nth_error_nth _ _ 0 E).
+  - apply nth_error_None in E. lia.
+Qed.
+
+Lemma fail_path_apps id' d : apps_of id' (fail_path d) = [].
+Proof.
+  induction d; simpl; auto; rewrite apps_of_app; simpl; rewrite ?app_nil_r; auto.
+Qed.
+
+Lemma batch_get_apps id' get fails : apps_of id' fails = [] ->
+  forall k start first es vs, batch_get get fails start k first = Some (es, vs) ->
+  apps_of id' es =
+  flat_map (fun j => match get j with Some (e', _) => apps_of id' e' | None => [] end) (seq start k).
+Proof.
+  intros F. induction k as [|k IH]; intros start first es vs; simpl.
+  - intros H; inversion H. reflexivity.
+  - destruct (get start) as [[e v]|] eqn:E.
+    + destruct (batch_get get fails (S start) k false) as [[es' vs']|] eqn:E'; [|discriminate].
+      intros H; inversion H; subst. rewrite apps_of_app. f_equal. eapply IH; eauto.
+    + destruct first; [discriminate|].
+      destruct (batch_get get fails (S start) k false) as [[es' vs']|] eqn:E'; [|discriminate].
+      intros H; inversion H; subst. rewrite apps_of_app, F. simpl. eapply IH; eauto.
+Qed.
+
+Lemma flat_map_seq_shift {B} (g : nat -> list B) a n :
+  flat_map g (seq a n) = flat_map (fun t => g (a + t)) (seq 0 n).
+Proof.
+  revert g a. induction n as [|n IH]; intros g a; simpl; auto.
+  rewrite Nat.add_0_r. f_equal. rewrite (IH g (S a)), (IH (fun t => g (a + t)) 1).
+  apply flat_map_ext. intros t. f_equal. lia.
+Qed.
+
+(* the applications below a batch fetched by index are those of fetching its (existing) members, in order *)
+Theorem get_batch_support id n d j e v id' : 1 <= n -> get_s (LBatch id n d) j = Some (e, v) ->
+  apps_of id' e =
+  flat_map (fun t => match get_s d (j * n + t) with Some (e', _) => apps_of id' e' | None => [] end) (seq 0 n).
+Proof.
+  intros Hn E. simpl in E. replace (Nat.max n 1) with n in E by lia.
+  destruct (batch_get (get_s d) (fail_path d) (j * n) n true) as [[es vs]|] eqn:E'; inversion E; subst.
+  rewrite apps_of_app. simpl. rewrite app_nil_r.
+  rewrite (batch_get_apps id' _ _ (fail_path_apps id' d) _ _ _ _ _ E').
+  apply (flat_map_seq_shift (fun j => match get_s d j with Some (e', _) => apps_of id' e' | None => [] end)).
+Qed.
+
+(* ------------------------------------------------------------------------------------------------ *)
+(* C3: every segment of the root carries exactly one Fetch of the root *)
+
+Definition F0 (r : nat) (l : list seg) : Prop := Forall (fun sg => fetches_of r (fst sg) = 0) l.
+Definition F1 (r : nat) (l : list seg) : Prop := Forall (fun sg => fetches_of r (fst sg) = 1) l.
+
+Lemma fetches_own r : fetches_of r [Fetch r] = 1.
+Proof. unfold fetches_of; simpl. now rewrite Nat.eqb_refl. Qed.
+Lemma fetches_own2 r v : fetches_of r [App r v; Fetch r] = 1.
+Proof. unfold fetches_of; simpl. now rewrite Nat.eqb_refl. Qed.
+Lemma fetches_app1 r i v : fetches_of r [App i v] = 0.
+Proof. reflexivity. Qed.
+Lemma fetches_nil r : fetches_of r [] = 0.
+Proof. reflexivity. Qed.
+
+Lemma no_id_F0 r l : Forall (segP (no_id r)) l -> F0 r l.
+Proof. induction 1 as [|[e v] l He Hl IH]; constructor; auto. simpl. now apply no_id_fetches. Qed.
+
+Ltac fsimp := rewrite ?fetches_of_app, ?fetches_own, ?fetches_own2, ?fetches_app1, ?fetches_nil.
+
+Lemma filter_segs_F1 r p pend l : fetches_of r pend = 0 -> F0 r l ->
+  F1 r (fst (filter_segs r p pend l)) /\ fetches_of r (snd (filter_segs r p pend l)) = 0.
+Proof.
+  intros Hp Hl. revert pend Hp. induction Hl as [|[e v] l He Hl IH]; intros pend Hp; simpl in *.
+  - split; auto. constructor.
+  - destruct (p v).
+    + specialize (IH [] eq_refl). destruct (filter_segs r p [] l) as [o f]. simpl in *. destruct IH as [I1 I2].
+      split; auto. constructor; auto. simpl. fsimp. lia.
+    + apply IH. fsimp. lia.
+Qed.
+
+Lemma batch_segs_F1 r n ce cv l fin : fetches_of r ce = 0 -> F0 r l -> fetches_of r fin = 0 ->
+  F1 r (fst (batch_segs r n ce cv l fin)) /\ fetches_of r (snd (batch_segs r n ce cv l fin)) = 0.
+Proof.
+  intros Hc Hl Hf. revert ce cv Hc. induction Hl as [|[e v] l He Hl IH]; intros ce cv Hc; simpl in *.
+  - destruct cv; simpl; split; auto; try constructor; simpl; fsimp; try lia. constructor.
+  - destruct (n <=? S (length cv)).
+    + specialize (IH [] [] eq_refl). destruct (batch_segs r n [] [] l fin) as [o f]. simpl in *.
+      destruct IH as [I1 I2]. split; auto. constructor; auto. simpl. fsimp. lia.
+    + apply IH. fsimp. lia.
+Qed.
+
+Lemma spread_F1 r e b : fetches_of r e = 0 -> F1 r (spread r e b).
+Proof.
+  revert e. induction b as [|x b IH]; intros e He; simpl; constructor.
+  - simpl. fsimp. lia.
+  - apply IH. reflexivity.
+Qed.
+
+Lemma unbatch_segs_F1 r pend l : fetches_of r pend = 0 -> F0 r l ->
+  F1 r (fst (unbatch_segs r pend l)) /\ fetches_of r (snd (unbatch_segs r pend l)) = 0.
+Proof.
+  intros Hp Hl. revert pend Hp. induction Hl as [|[e v] l He Hl IH]; intros pend Hp; simpl in *.
+  - split; auto. constructor.
+  - destruct (elems v) as [|x b].
+    + apply IH. fsimp. lia.
+    + specialize (IH [] eq_refl). destruct (unbatch_segs r [] l) as [o f]. simpl in *. destruct IH as [I1 I2].
+      split; auto. constructor.
+      * simpl. fsimp. lia.
+      * apply Forall_app; split; auto. apply spread_F1. reflexivity.
+Qed.
+
+Lemma zip_segs_F1 r la lb fa fb : F0 r la -> F0 r lb -> fetches_of r fa = 0 -> fetches_of r fb = 0 ->
+  F1 r (fst (zip_segs r la lb fa fb)) /\ fetches_of r (snd (zip_segs r la lb fa fb)) = 0.
+Proof.
+  intros Ha Hb Hfa Hfb. revert lb Hb. induction Ha as [|[ea va] la Hea Hla IH]; intros lb Hb; simpl in *.
+  - split; auto. constructor.
+  - destruct Hb as [|[eb vb] lb Heb Hlb]; simpl in *.
+    + split; [constructor|]. fsimp. lia.
+    + specialize (IH lb Hlb). destruct (zip_segs r la lb fa fb) as [o f]. simpl in *. destruct IH as [I1 I2].
+      split; auto. constructor; auto. simpl. fsimp. lia.
+Qed.
+
+Lemma slice_segs_F1 r get idx : (forall i e v, get i = Some (e, v) -> fetches_of r e = 0) ->
+  F1 r (slice_segs r get idx).
+Proof.
+  intros G. induction idx as [|i idx IH]; simpl; [constructor|].
+  destruct (get i) as [[e v]|] eqn:E; constructor; auto. simpl. fsimp. rewrite (G _ _ _ E). reflexivity.
+Qed.
+
+Lemma tag_fetch_F1 r l : F0 r l -> F1 r (map (tag_fetch r) l).
+Proof. induction 1 as [|[e v] l He Hl IH]; simpl; constructor; auto. simpl in *. fsimp. lia. Qed.
+
+Lemma not_in_app {A} (x : A) a b : ~ In x (a ++ b) -> ~ In x a /\ ~ In x b.
+Proof. intros H. split; intros I; apply H, in_or_app; auto. Qed.
+
+Lemma root_segs d : ~ In (root_id d) (tl (ids_of d)) ->
+  F1 (root_id d) (fst (iter_s d)) /\ fetches_of (root_id d) (snd (iter_s d)) = 0.
+Proof.
+  destruct d as [id vs|id f d|id p d|id n d|id d|id a b|id a b|id idx d]; simpl; intros H.
+  - split; auto. induction vs; simpl; constructor; auto. simpl. apply fetches_own.
+  - destruct (iter_s_no_id id d H) as [H1 H2]. destruct (iter_s d) as [l fin]. simpl in *.
+    split; [|now apply no_id_fetches]. apply no_id_F0 in H1. clear - H1.
+    induction H1 as [|[e v] l He Hl IH]; simpl; constructor; auto. simpl in *. fsimp. lia.
+  - destruct (iter_s_no_id id d H) as [H1 H2]. destruct (iter_s d) as [l fin]. simpl in *.
+    destruct (filter_segs_F1 id p [] l eq_refl (no_id_F0 _ _ H1)) as [Q1 Q2].
+    destruct (filter_segs id p [] l) as [o pend]. simpl in *. split; auto. fsimp.
+    rewrite (no_id_fetches id fin H2). lia.
+  - destruct (iter_s_no_id id d H) as [H1 H2]. destruct (iter_s d) as [l fin]. simpl in *.
+    apply batch_segs_F1; auto. now apply no_id_F0. now apply no_id_fetches.
+  - destruct (iter_s_no_id id d H) as [H1 H2]. destruct (iter_s d) as [l fin]. simpl in *.
+    destruct (unbatch_segs_F1 id [] l eq_refl (no_id_F0 _ _ H1)) as [Q1 Q2].
+    destruct (unbatch_segs id [] l) as [o pend]. simpl in *. split; auto. fsimp.
+    rewrite (no_id_fetches id fin H2). lia.
+  - apply not_in_app in H as [Ha Hb].
+    destruct (iter_s_no_id id a Ha) as [A1 A2]. destruct (iter_s_no_id id b Hb) as [B1 B2].
+    destruct (iter_s a) as [la fa], (iter_s b) as [lb fb]. simpl in *.
+    apply no_id_F0 in A1. apply no_id_fetches in A2, B2.
+    destruct lb as [|[e v] lb]; simpl.
+    + split; [now apply tag_fetch_F1|]. fsimp. lia.
+    + inversion B1 as [|? ? Be Bl]; subst. apply no_id_F0 in Bl. apply no_id_fetches in Be. simpl in Be.
+      split; auto. apply Forall_app; split; [now apply tag_fetch_F1|].
+      constructor; [|now apply tag_fetch_F1]. simpl. fsimp. lia.
+  - apply not_in_app in H as [Ha Hb].
+    destruct (iter_s_no_id id a Ha) as [A1 A2]. destruct (iter_s_no_id id b Hb) as [B1 B2].
+    destruct (iter_s a) as [la fa], (iter_s b) as [lb fb]. simpl in *.
+    apply zip_segs_F1; auto using no_id_F0, no_id_fetches.
+  - split; auto. apply slice_segs_F1. intros i e v E. apply no_id_fetches. eapply get_s_no_id; eauto.
+Qed.
+
+Lemma F1_upto r l fin k : F1 r l -> fetches_of r (events_upto k (l, fin)) = min k (length l).
+Proof.
+  intros H. revert k. induction H as [|s l Hs Hl IH]; intros k.
+  - rewrite events_upto_nil, fetches_nil. simpl. lia.
+  - destruct k; auto. rewrite events_upto_cons, fetches_of_app, IH, Hs. simpl. lia.
+Qed.
+
+(* after k next() calls the root has handed over min k (length) elements *)
+Theorem fetch_count_prefix d k : lwf d -> ~ In (root_id d) (tl (ids_of d)) ->
+  fetches_of (root_id d) (events_upto k (iter_s d)) = min k (length (lref d)).
+Proof.
+  intros W H. rewrite <- (length_iter d W). destruct (root_segs d H) as [H1 _].
+  destruct (iter_s d) as [l fin]. simpl in *. now apply F1_upto.
+Qed.
+
+Theorem fetch_count_root d : lwf d -> ~ In (root_id d) (tl (ids_of d)) ->
+  fetches_of (root_id d) (all_events (iter_s d)) = length (lref d).
+Proof.
+  intros W H. rewrite <- (events_upto_all (length (fst (iter_s d)))) by lia.
+  rewrite fetches_of_app, fetch_count_prefix by assumption. destruct (root_segs d H) as [_ H2].
+  rewrite H2, (length_iter d W). lia.
+Qed.
+
+(* ------------------------------------------------------------------------------------------------ *)
+(* B4: batch *)
+
+Lemma iter_s_batch id n d : 1 <= n ->
+  iter_s (LBatch id n d) = batch_segs id n [] [] (fst (iter_s d)) (snd (iter_s d)).
+Proof. intros H. simpl. replace (Nat.max n 1) with n by lia. now destruct (iter_s d). Qed.
+
+Lemma batch_all_drop id n ce cv l fin :
+  drop id (all_events (batch_segs id n ce cv l fin)) = drop id ce ++ drop id (all_events (l, fin)).
+Proof.
+  revert ce cv. induction l as [|[e v] r IH]; intros ce cv; simpl.
+  - rewrite all_events_nil. destruct cv.
+    + rewrite all_events_nil. apply drop_app.
+    + rewrite all_events_cons, all_events_nil. cbn [fst]. rewrite app_nil_r, !drop_app, drop_fetch.
+      now rewrite app_nil_r.
+  - rewrite (all_events_cons (e, v)). cbn [fst]. destruct (n <=? S (length cv)).
+    + specialize (IH [] []). destruct (batch_segs id n [] [] r fin) as [o f].
+      rewrite all_events_cons. cbn [fst]. rewrite !drop_app, drop_fetch, IH, drop_nil. simpl.
+      now rewrite app_nil_r, <- app_assoc.
+    + rewrite IH, !drop_app. now rewrite <- app_assoc.
+Qed.
+
+Lemma batch_count id n ce cv l fin : 1 <= n -> length cv < n ->
+  length cv + length l <= length (fst (batch_segs id n ce cv l fin)) * n.
+Proof.
+  intros Hn. revert ce cv. induction l as [|[e v] r IH]; intros ce cv Hc; simpl.
+  - destruct cv; simpl in *; lia.
+  - destruct (Nat.leb_spec n (S (length cv))).
+    + specialize (IH [] [] ltac:(simpl; lia)). destruct (batch_segs id n [] [] r fin) as [o f]. simpl in *. lia.
+    + specialize (IH (ce ++ e) (cv ++ [v])). rewrite app_length in IH. simpl in IH.
+      specialize (IH ltac:(lia)). lia.
+Qed.
+
+Lemma batch_upto_drop id n ce cv l fin k : 1 <= n -> length cv < n ->
+  1 <= k <= length (fst (batch_segs id n ce cv l fin)) ->
+  drop id (events_upto k (batch_segs id n ce cv l fin)) =
+  drop id ce ++ drop id (if k * n <=? length cv + length l
+                         then events_upto (k * n - length cv) (l, fin) else all_events (l, fin)).
+Proof.
+  intros Hn. revert k ce cv. induction l as [|[e v] r IH]; intros k ce cv Hc Hk; simpl in Hk |- *.
+  - destruct k as [|k]; [lia|]. destruct (Nat.leb_spec (S k * n) (length cv + 0)); [nia|].
+    rewrite all_events_nil. destruct cv as [|x cv]; simpl in Hk; [lia|].
+    rewrite events_upto_cons, events_upto_nil. cbn [fst]. rewrite app_nil_r, !drop_app, drop_fetch.
+    now rewrite app_nil_r.
+  - destruct k as [|k]; [lia|]. destruct (Nat.leb_spec n (S (length cv))).
+    + specialize (IH k [] []). destruct (batch_segs id n [] [] r fin) as [o f]. cbn [fst snd length] in *.
+      rewrite events_upto_cons. cbn [fst]. rewrite !drop_app, drop_fetch, app_nil_r, <- app_assoc. f_equal.
+      destruct k as [|k].
+      * rewrite events_upto_0, drop_nil, app_nil_r.
+        destruct (Nat.leb_spec (1 * n) (length cv + S (length r))); [|lia].
+        replace (1 * n - length cv) with 1 by lia. rewrite events_upto_cons, events_upto_0. cbn [fst].
+        now rewrite app_nil_r.
+      * rewrite IH by lia. rewrite drop_nil. cbn [app]. rewrite Nat.sub_0_r.
+        destruct (Nat.leb_spec (S k * n) (0 + length r)), (Nat.leb_spec (S (S k) * n) (length cv + S (length r)));
+          try nia.
+        -- replace (S (S k) * n - length cv) with (S (S k * n)) by nia.
+           rewrite events_upto_cons. cbn [fst]. now rewrite drop_app.
+        -- rewrite all_events_cons. cbn [fst]. now rewrite drop_app.
+    + rewrite IH by (rewrite ?app_length; simpl; lia). rewrite app_length. cbn [length].
+      rewrite drop_app, <- app_assoc. f_equal.
+      destruct (Nat.leb_spec (S k * n) (length cv + 1 + length r)), (Nat.leb_spec (S k * n) (length cv + S (length r)));
+        try lia.
+      * replace (S k * n - length cv) with (S (S k * n - (length cv + 1))) by nia.
+        rewrite events_upto_cons. cbn [fst]. now rewrite drop_app.
+      * rewrite all_events_cons. cbn [fst]. now rewrite drop_app.
+Qed.
+
+(* asking a batch stage for k batches pulls exactly k*n input elements - never more than the batch being built - or,
+   when the input runs out first, everything including the input's terminating events *)
+Theorem batch_demand_events id n d k : 1 <= n ->
+  drop id (if k <=? length (fst (iter_s (LBatch id n d)))
+           then events_upto k (iter_s (LBatch id n d)) else all_events (iter_s (LBatch id n d))) =
+  drop id (if k * n <=? length (fst (iter_s d)) then events_upto (k * n) (iter_s d) else all_events (iter_s d)).
+Proof.
+  intros Hn. rewrite iter_s_batch by assumption. destruct (iter_s d) as [l fin]. cbn [fst snd].
+  pose proof (batch_count id n [] [] l fin Hn ltac:(simpl; lia)) as C. simpl in C.
+  destruct (Nat.leb_spec k (length (fst (batch_segs id n [] [] l fin)))).
+  - destruct k as [|k]; [reflexivity|].
+    rewrite batch_upto_drop by (simpl; lia). simpl length. rewrite drop_nil, Nat.sub_0_r. reflexivity.
+  - rewrite batch_all_drop, drop_nil. destruct (Nat.leb_spec (k * n) (length l)); [nia|]. reflexivity.
+Qed.
+
+Theorem batch_demand id n d k id' : 1 <= n -> id' <> id ->
+  apps_of id' (if k <=? length (fst (iter_s (LBatch id n d)))
+               then events_upto k (iter_s (LBatch id n d)) else all_events (iter_s (LBatch id n d))) =
+  apps_of id' (if k * n <=? length (fst (iter_s d)) then events_upto (k * n) (iter_s d) else all_events (iter_s d)).
+Proof.
+  intros Hn H. rewrite <- (apps_of_drop id' id _ H), batch_demand_events by assumption. now apply apps_of_drop.
+Qed.
+
+(* the statement as originally phrased holds when k batches exist *)
+Theorem batch_demand_le id n d k id' : 1 <= n -> id' <> id -> k <= length (fst (iter_s (LBatch id n d))) ->
+  apps_of id' (events_upto k (iter_s (LBatch id n d))) =
+  apps_of id' (if k * n <=? length (fst (iter_s d)) then events_upto (k * n) (iter_s d) else all_events (iter_s d)).
+Proof.
+  intros Hn H K. rewrite <- (batch_demand id n d k id' Hn H).
+  destruct (Nat.leb_spec k (length (fst (iter_s (LBatch id n d))))); auto. lia.
+Qed.
+
+(* the two cases separately *)
+Theorem batch_demand_enough id n d k id' : 1 <= n -> id' <> id -> k * n <= length (fst (iter_s d)) ->
+  apps_of id' (events_upto k (iter_s (LBatch id n d))) = apps_of id' (events_upto (k * n) (iter_s d)).
+Proof.
+  intros Hn H K. pose proof (batch_demand id n d k id' Hn H) as Q.
+  destruct (Nat.leb_spec (k * n) (length (fst (iter_s d)))); [|lia].
+  destruct (Nat.leb_spec k (length (fst (iter_s (LBatch id n d))))); auto.
+  (* k beyond the number of batches contradicts k*n <= input length *)
+  exfalso. rewrite iter_s_batch in H1 by assumption.
+  destruct (iter_s d) as [l fin]. cbn [fst snd] in *.
+  pose proof (batch_count id n [] [] l fin Hn ltac:(simpl; lia)) as C. cbn [length Nat.add] in C.
+  remember (length (fst (batch_segs id n [] [] l fin))) as m.
+  assert (S m * n <= k * n) by (apply Nat.mul_le_mono_r; lia). lia.
+Qed.
+
+Theorem batch_all_events id n d : 1 <= n ->
+  drop id (all_events (iter_s (LBatch id n d))) = drop id (all_events (iter_s d)).
+Proof.
+  intros Hn. rewrite iter_s_batch by assumption. destruct (iter_s d) as [l fin]. cbn [fst snd].
+  now rewrite batch_all_drop, drop_nil.
+Qed.
+
+(* ------------------------------------------------------------------------------------------------ *)
+(* C2: every node hands over exactly as many elements as it yields (full iteration) *)
+
+Lemma spread_drop r e x b : drop r (concat (map fst (spread r e (x :: b)))) = drop r e.
+Proof.
+  revert e x. induction b as [|y b IH]; intros e x.
+  - simpl. rewrite app_nil_r, drop_app, drop_fetch. now rewrite app_nil_r.
+  - change (spread r e (x :: y :: b)) with ((e ++ [Fetch r], x) :: spread r [] (y :: b)).
+    cbn [map concat fst]. rewrite !drop_app, drop_fetch, IH, drop_nil. now rewrite !app_nil_r.
+Qed.
+
+Lemma all_events_app_l a o f : all_events (a ++ o, f) = concat (map fst a) ++ all_events (o, f).
+Proof. unfold all_events. simpl. now rewrite map_app, concat_app, app_assoc. Qed.
+
+Lemma unbatch_all_drop r pend l :
+  drop r (all_events (unbatch_segs r pend l)) = drop r pend ++ drop r (all_events (l, [])).
+Proof.
+  revert pend. induction l as [|[e v] l IH]; intros pend; cbn [unbatch_segs].
+  - rewrite !all_events_nil. simpl. now rewrite app_nil_r.
+  - rewrite (all_events_cons (e, v)). cbn [fst]. destruct (elems v) as [|x b].
+    + rewrite IH, !drop_app. now rewrite app_assoc.
+    + specialize (IH []). destruct (unbatch_segs r [] l) as [o f].
+      rewrite all_events_app_l, drop_app, spread_drop, IH, drop_nil, !drop_app. simpl. now rewrite app_assoc.
+Qed.
+
+Theorem unbatch_all_events id d :
+  drop id (all_events (iter_s (LUnbatch id d))) = drop id (all_events (iter_s d)).
+Proof.
+  simpl. destruct (iter_s d) as [l fin]. pose proof (unbatch_all_drop id [] l) as Q.
+  destruct (unbatch_segs id [] l) as [o f].
+  rewrite all_events_snd_app, drop_app, Q, drop_nil. simpl.
+  rewrite <- drop_app. f_equal. unfold all_events. simpl. now rewrite app_nil_r.
+Qed.
+
+Lemma tag_fetch_drop r l : drop r (concat (map fst (map (tag_fetch r) l))) = drop r (concat (map fst l)).
+Proof.
+  induction l as [|[e v] l IH]; simpl; auto. rewrite !drop_app, drop_fetch, IH. now rewrite app_nil_r.
+Qed.
+
+Theorem concat_all_events id a b :
+  drop id (all_events (iter_s (LConcat id a b))) = drop id (all_events (iter_s a)) ++ drop id (all_events (iter_s b)).
+Proof.
+  simpl. destruct (iter_s a) as [la fa], (iter_s b) as [lb fb]. destruct lb as [|[e v] lb].
+  - unfold all_events. simpl. rewrite !drop_app, tag_fetch_drop. now rewrite app_assoc.
+  - unfold all_events. simpl. rewrite map_app, concat_app. simpl.
+    rewrite !drop_app, !tag_fetch_drop, drop_fetch. simpl. now rewrite <- !app_assoc.
+Qed.
+
+Lemma zip_all_fetches id r la lb fa fb : id <> r -> length la = length lb ->
+  fetches_of id (all_events (zip_segs r la lb fa fb)) =
+  fetches_of id (all_events (la, fa)) + fetches_of id (all_events (lb, [])).
+Proof.
+  intros H. revert lb. induction la as [|[ea va] la IH]; intros lb L; destruct lb as [|[eb vb] lb];
+    simpl in L; try discriminate.
+  - simpl. rewrite !all_events_nil. rewrite fetches_nil. lia.
+  - simpl. specialize (IH lb ltac:(lia)). destruct (zip_segs r la lb fa fb) as [o f].
+    rewrite !all_events_cons. cbn [fst]. rewrite !fetches_of_app, IH.
+    assert (fetches_of id [Fetch r] = 0).
+    { unfold fetches_of. simpl. destruct (Nat.eqb_spec r id); [congruence|reflexivity]. }
+    lia.
+Qed.
+
+Lemma batch_segs_fin_nil id n ce cv l : (cv = [] -> ce = []) -> snd (batch_segs id n ce cv l []) = [].
+Proof.
+  revert ce cv. induction l as [|[e v] l IH]; intros ce cv H; simpl.
+  - destruct cv; simpl; auto. rewrite H; auto.
+  - destruct (n <=? S (length cv)).
+    + specialize (IH [] [] (fun _ => eq_refl)). destruct (batch_segs id n [] [] l []) as [o f]. exact IH.
+    + apply IH. intros E. destruct cv; discriminate.
+Qed.
+
+Lemma zip_segs_fin_nil id la lb fb : length la = length lb -> snd (zip_segs id la lb [] fb) = [].
+Proof.
+  revert lb. induction la as [|[ea va] la IH]; intros lb L; destruct lb as [|[eb vb] lb];
+    simpl in L; try discriminate; simpl; auto.
+  specialize (IH lb ltac:(lia)). destruct (zip_segs id la lb [] fb) as [o f]. exact IH.
+Qed.
+
+(* a pipeline with a length has nothing left to do in its terminating next() call *)
+Lemma indexable_fin d : lwf d -> indexable_l d = true -> snd (iter_s d) = [].
+Proof.
+  induction d as [id vs|id f d IH|id p d IH|id n d IH|id d IH|id a IHa b IHb|id a IHa b IHb|id idx d IH];
+    simpl; intros W X; try discriminate; auto.
+  - specialize (IH W X). destruct (iter_s d) as [l fin]. exact IH.
+  - destruct W as [Hn W]. specialize (IH W X). destruct (iter_s d) as [l fin]. simpl in IH. subst.
+    now apply batch_segs_fin_nil.
+  - destruct W as [Wa Wb]. apply andb_true_iff in X as [Xa Xb]. specialize (IHa Wa Xa). specialize (IHb Wb Xb).
+    destruct (iter_s a) as [la fa], (iter_s b) as [lb fb]. simpl in *. subst.
+    destruct lb as [|[e v] lb]; reflexivity.
+  - destruct W as (Wa & Wb & L & _). apply andb_true_iff in X as [Xa Xb].
+    specialize (IHa Wa Xa). specialize (IHb Wb Xb).
+    rewrite <- (length_iter a Wa), <- (length_iter b Wb) in L.
+    destruct (iter_s a) as [la fa], (iter_s b) as [lb fb]. simpl in *. subst.
+    now apply zip_segs_fin_nil.
+Qed.
+
+Lemma sub_in id d d' : sub id d = Some d' -> In id (ids_of d).
+Proof.
+  induction d as [i vs|i f d IH|i p d IH|i n d IH|i d IH|i a IHa b IHb|i a IHa b IHb|i idx d IH];
+    simpl; destruct (Nat.eqb_spec i id); auto; intros H; try discriminate; try (right; auto; fail).
+  - right. apply in_or_app. destruct (sub id a); auto.
+  - right. apply in_or_app. destruct (sub id a); auto.
+Qed.
+
+Lemma sub_root id d d' : sub id d = Some d' -> root_id d' = id.
+Proof.
+  induction d as [i vs|i f d IH|i p d IH|i n d IH|i d IH|i a IHa b IHb|i a IHa b IHb|i idx d IH];
+    simpl; destruct (Nat.eqb_spec i id); intros H; try discriminate; auto;
+    try (inversion H; subst; reflexivity).
+  all: destruct (sub id a) eqn:E; auto.
+Qed.
+
+Lemma NoDup_app_inv {A} (a b : list A) :
+  NoDup (a ++ b) -> NoDup a /\ NoDup b /\ forall x, In x a -> ~ In x b.
+Proof.
+  induction a as [|y a IH]; simpl; intros H.
+  - repeat split; auto. constructor.
+  - inversion H as [|? ? Hy Hn]; subst. destruct (IH Hn) as (Na & Nb & D).
+    repeat split; auto.
+    + constructor; auto. intros I. apply Hy, in_or_app. auto.
+    + intros x [->|I]; auto. intros Ib. apply Hy, in_or_app. auto.
+Qed.
+
+Lemma fresh_fetches id d : ~ In id (ids_of d) -> fetches_of id (all_events (iter_s d)) = 0.
+Proof. intros H. apply no_id_fetches, stream_all_all, iter_s_no_id, H. Qed.
+
+Theorem fetch_count_full d : forall id d', lwf d -> iter_only d = true -> NoDup (ids_of d) -> sub id d = Some d' ->
+  fetches_of id (all_events (iter_s d)) = length (lref d').
+Proof.
+  induction d as [i vs|i f d IH|i p d IH|i n d IH|i d IH|i a IHa b IHb|i a IHa b IHb|i idx d IH];
+    intros id d' W I N S;
+    (destruct (Nat.eq_dec i id) as [->|Hne];
+     [ simpl in S; rewrite Nat.eqb_refl in S; inversion S; subst;
+       apply (fetch_count_root _ W); simpl; inversion N; auto
+     | simpl in S; destruct (Nat.eqb_spec i id); [congruence|] ]);
+    try discriminate; simpl in W, I, N; inversion N as [|? ? Hi Nd]; subst.
+  - rewrite <- (fetches_of_drop id i) by auto. rewrite map_upstream_events_all.
+    rewrite fetches_of_drop by auto. apply IH; auto.
+  - rewrite <- (fetches_of_drop id i) by auto. rewrite filter_upstream_events_all.
+    rewrite fetches_of_drop by auto. apply IH; auto.
+  - destruct W as [Hn W]. rewrite <- (fetches_of_drop id i) by auto. rewrite batch_all_events by auto.
+    rewrite fetches_of_drop by auto. apply IH; auto.
+  - destruct W as [W _]. rewrite <- (fetches_of_drop id i) by auto. rewrite unbatch_all_events.
+    rewrite fetches_of_drop by auto. apply IH; auto.
+  - destruct W as [Wa Wb]. apply andb_true_iff in I as [Ia Ib].
+    destruct (NoDup_app_inv _ _ Nd) as (Na & Nb & D).
+    rewrite <- (fetches_of_drop id i) by auto. rewrite concat_all_events, fetches_of_app.
+    rewrite !fetches_of_drop by auto.
+    destruct (sub id a) as [x|] eqn:Sa.
+    + inversion S; subst. rewrite (IHa id d' Wa Ia Na Sa).
+      rewrite (fresh_fetches id b); [lia|]. apply D. eapply sub_in; eauto.
+    + rewrite (IHb id d' Wb Ib Nb S). rewrite (fresh_fetches id a); [lia|].
+      intros Ha. apply (D id Ha). eapply sub_in; eauto.
+  - destruct W as (Wa & Wb & L & Xa & Xb). apply andb_true_iff in I as [Ia Ib].
+    destruct (NoDup_app_inv _ _ Nd) as (Na & Nb & D).
+    assert (Q : fetches_of id (all_events (iter_s (LZip i a b))) =
+                fetches_of id (all_events (iter_s a)) + fetches_of id (all_events (iter_s b))).
+    { simpl. pose proof (indexable_fin b Wb Xb) as Fb.
+      rewrite <- (length_iter a Wa), <- (length_iter b Wb) in L.
+      destruct (iter_s a) as [la fa], (iter_s b) as [lb fb]. simpl in *. subst fb.
+      apply zip_all_fetches; auto. }
+    rewrite Q.
+    destruct (sub id a) as [x|] eqn:Sa.
+    + inversion S; subst. rewrite (IHa id d' Wa Ia Na Sa).
+      rewrite (fresh_fetches id b); [lia|]. apply D. eapply sub_in; eauto.
+    + rewrite (IHb id d' Wb Ib Nb S). rewrite (fresh_fetches id a); [lia|].
+      intros Ha. apply (D id Ha). eapply sub_in; eauto.
+Qed.
+
+(* ------------------------------------------------------------------------------------------------ *)
+(* why some statements differ from their first phrasing: counterexamples *)
+Module Counterexamples.
+  Definition a := VInt 1. Definition b := VInt 2. Definition c := VInt 3.
+  Definition is1 (v : val) : bool := match v with VInt 1%Z => true | _ => false end.
+
+  (* map_demand needs lwf: an out-of-range slice index ends the iteration but is skipped by lref *)
+  Definition d1 := LSlice 1 [5; 0] (LSrc 0 [a]).
+  Example map_demand_needs_lwf :
+    apps_of 2 (events_upto 1 (iter_s (LMap 2 (fun v => v) d1))) = [] /\ firstn 1 (lref d1) = [a].
+  Proof. split; reflexivity. Qed.
+
+  (* filter_demand: events_upto k only holds the events of next() calls that returned an element; with fewer than
+     k passing examples the rejected tail is examined in the terminating call *)
+  Definition d3 := LSrc 0 [a; b].
+  Example filter_demand_needs_termination :
+    apps_of 1 (events_upto 2 (iter_s (LFilter 1 is1 d3))) = [a] /\ upto_kth_pass is1 2 (lref d3) = [a; b].
+  Proof. split; reflexivity. Qed.
+
+  (* batch_demand: same effect when the input length is a multiple of n and k exceeds the number of batches *)
+  Definition d4 := LFilter 1 is1 (LSrc 0 [a; b]).
+  Example batch_demand_needs_termination :
+    apps_of 1 (events_upto 2 (iter_s (LBatch 2 1 d4))) = [a] /\
+    apps_of 1 (if 2 * 1 <=? length (fst (iter_s d4)) then events_upto (2 * 1) (iter_s d4) else all_events (iter_s d4))
+    = [a; b].
+  Proof. split; reflexivity. Qed.
+
+  (* fetch_count_full: zip never makes the terminating next() call on its second input, so a filter there is not
+     drained; hence lwf demands indexable zip inputs (zip needs their len() anyway) *)
+  Definition d5 := LZip 3 (LSrc 2 [c]) (LFilter 1 is1 (LSrc 0 [a; b])).
+  Example zip_over_filter_not_drained :
+    fetches_of 0 (all_events (iter_s d5)) = 1 /\ length (lref (LSrc 0 [a; b])) = 2 /\
+    length (lref (LSrc 2 [c])) = length (lref (LFilter 1 is1 (LSrc 0 [a; b]))).
+  Proof. repeat split; reflexivity. Qed.
+End Counterexamples.
+
+(* ------------------------------------------------------------------------------------------------ *)
+Print Assumptions values_ref.
+Print Assumptions get_ref.
+Print Assumptions map_demand_values.
+Print Assumptions map_demand.
+Print Assumptions map_all.
+Print Assumptions map_upstream_events.
+Print Assumptions map_upstream_events_all.
+Print Assumptions map_upstream_transparent.
+Print Assumptions map_upstream_transparent_all.
+Print Assumptions filter_demand_values.
+Print Assumptions filter_demand.
+Print Assumptions filter_demand_le.
+Print Assumptions filter_all.
+Print Assumptions filter_upstream_events.
+Print Assumptions filter_upstream_events_all.
+Print Assumptions batch_demand_events.
+Print Assumptions batch_demand.
+Print Assumptions batch_demand_le.
+Print Assumptions batch_demand_enough.
+Print Assumptions batch_all_events.
+Print Assumptions unbatch_all_events.
+Print Assumptions concat_all_events.
+Print Assumptions get_map_support.
+Print Assumptions get_map_events.
+Print Assumptions get_slice_support.
+Print Assumptions get_slice_support_nth.
+Print Assumptions get_batch_support.
+Print Assumptions no_fail_in_iteration.
+Print Assumptions no_fail_in_iteration_upto.
+Print Assumptions fetch_count_root.
+Print Assumptions fetch_count_full.
+Print Assumptions fetch_count_prefix.
